@@ -384,12 +384,15 @@ Proof. intros. unfold emitted_all. apply flat_map_app. Qed.
 Definition effect_ok (w w' : world) (ems : list etx) (deb : N) : Prop :=
   w_etxs w' = w_etxs w ++ ems /\ seq_from (lenN (w_etxs w)) ems /\ sumb (w_bal w') + deb = sumb (w_bal w).
 
-Definition call_inv (cf : N -> N -> N -> N -> N -> world -> cres) : Prop :=
-  forall depth caller addr gas value w,
-    let r := cf depth caller addr gas value w in
-    (c_err r <> 0 -> c_world r = w) /\
-    effect_ok w (c_world r) (if c_err r =? 0 then emitted_all (c_tr r) else [])
-                            (if c_err r =? 0 then debited_all (c_tr r) else 0).
+(* what the result of a frame must satisfy with respect to the world w it was entered in *)
+Definition res_inv (w : world) (r : cres) : Prop :=
+  (kept r = false -> c_world r = w) /\
+  effect_ok w (c_world r) (if kept r then emitted_all (c_tr r) else [])
+                          (if kept r then debited_all (c_tr r) else 0).
+
+(* every frame kind: CALL, CALLCODE, DELEGATECALL, STATICCALL, constructors *)
+Definition call_inv (cf : fkind -> bool -> N -> N -> N -> N -> N -> world -> cres) : Prop :=
+  forall k ro depth caller addr gas value w, res_inv w (cf k ro depth caller addr gas value w).
 
 Lemma effect_ok_refl : forall w, effect_ok w w [] 0.
 Proof. intros w. unfold effect_ok. rewrite app_nil_r. repeat split; [apply seq_from_nil|lia]. Qed.
@@ -415,14 +418,36 @@ Proof.
   - apply sumb_subb. assumption.
 Qed.
 
+Lemma res_inv_err : forall w e g tr, e <> 0 -> e <> 6 -> res_inv w (mkC e g w tr).
+Proof.
+  intros w e g tr He He6. unfold res_inv, kept. cbn [c_err c_world c_tr]. split; [reflexivity|].
+  apply N.eqb_neq in He, He6. rewrite He, He6. apply effect_ok_refl.
+Qed.
+Lemma res_inv_ok0 : forall w g w1,
+  w_etxs w1 = w_etxs w -> sumb (w_bal w1) = sumb (w_bal w) -> res_inv w (mkC 0 g w1 []).
+Proof.
+  intros w g w1 H1 H2. unfold res_inv, kept. cbn [c_err c_world c_tr N.eqb orb]. split; [discriminate|].
+  unfold effect_ok. cbn. rewrite H1, app_nil_r. repeat split; [apply seq_from_nil|lia].
+Qed.
+(* the result of a frame whose effects are kept: err == nil or ErrCodeStoreOutOfGas *)
+Lemma res_inv_kept : forall w e g w2 tr, (e = 0 \/ e = 6) ->
+  effect_ok w w2 (emitted_all tr) (debited_all tr) -> res_inv w (mkC e g w2 tr).
+Proof.
+  intros w e g w2 tr He H. unfold res_inv, kept. cbn [c_err c_world c_tr].
+  destruct He; subst e; cbn [N.eqb orb Pos.eqb]; (split; [discriminate|exact H]).
+Qed.
+
 Section ExecProofs.
-  Variable cf : N -> N -> N -> N -> N -> world -> cres.
+  Variable cf : fkind -> bool -> N -> N -> N -> N -> N -> world -> cres.
   Hypothesis cf_inv : call_inv cf.
   Variable c : ctx.
+  Variable ro : bool.
   Variable depth self : N.
 
+  Ltac flt FAULT := lazy beta iota; exact FAULT.
+
   Lemma exec_effect : forall code f w tr,
-    match exec cf c depth self code f w tr with
+    match exec cf c ro depth self code f w tr with
     | (h, f', w', tr') =>
         exists tr2, tr' = tr ++ tr2 /\ effect_ok w w' (emitted_all tr2) (debited_all tr2)
     end.
@@ -433,30 +458,31 @@ Section ExecProofs.
     { exists []. rewrite app_nil_r. split; [reflexivity|apply effect_ok_refl]. }
     destruct i; cbn [exec]; unfold fault.
     - (* IPush *)
-      destruct (stack_bad row_PUSH32 f); [(lazy beta iota; exact FAULT)|].
-      destruct (use_gas (cgas row_PUSH32) f) as [f1|]; [|(lazy beta iota; exact FAULT)]. apply IH.
+      destruct (stack_bad row_PUSH32 f); [flt FAULT|].
+      destruct (use_gas (cgas row_PUSH32) f) as [f1|]; [|flt FAULT]. apply IH.
     - (* IPop *)
-      destruct (stack_bad row_POP f); [(lazy beta iota; exact FAULT)|].
-      destruct (use_gas (cgas row_POP) f) as [f1|]; [|(lazy beta iota; exact FAULT)]. apply IH.
+      destruct (stack_bad row_POP f); [flt FAULT|].
+      destruct (use_gas (cgas row_POP) f) as [f1|]; [|flt FAULT]. apply IH.
     - (* IMstore *)
-      destruct (stack_bad row_MSTORE f); [(lazy beta iota; exact FAULT)|].
-      destruct (use_gas (cgas row_MSTORE) f) as [f1|]; [|(lazy beta iota; exact FAULT)].
-      destruct (f_stack f1) as [|off [|v st]]; try (lazy beta iota; exact FAULT).
-      destruct (if W64 <=? off then None else if W64 <=? off + 32 then None else Some (off + 32)) as [msz|]; [|(lazy beta iota; exact FAULT)].
-      destruct (mem_size32 msz) as [ms|]; [|(lazy beta iota; exact FAULT)].
-      destruct (mem_gas f1 ms) as [[fee last]|]; [|(lazy beta iota; exact FAULT)].
-      destruct (use_gas fee (with_mlast f1 last)) as [f2|]; [|(lazy beta iota; exact FAULT)]. apply IH.
+      destruct (stack_bad row_MSTORE f); [flt FAULT|].
+      destruct (use_gas (cgas row_MSTORE) f) as [f1|]; [|flt FAULT].
+      destruct (f_stack f1) as [|off [|v st]]; try (flt FAULT).
+      destruct (if W64 <=? off then None else if W64 <=? off + 32 then None else Some (off + 32)) as [msz|]; [|flt FAULT].
+      destruct (mem_size32 msz) as [ms|]; [|flt FAULT].
+      destruct (mem_gas f1 ms) as [[fee last]|]; [|flt FAULT].
+      destruct (use_gas fee (with_mlast f1 last)) as [f2|]; [|flt FAULT]. apply IH.
     - (* IEtx *)
-      destruct (stack_bad row_ETX f); [(lazy beta iota; exact FAULT)|].
-      destruct (use_gas (cgas row_ETX) f) as [f1|]; [|(lazy beta iota; exact FAULT)].
-      destruct (f_stack f1) as [|t0 [|addr [|value [|gl [|tip [|cap [|ioff [|isz [|aoff [|asz st]]]]]]]]]]; try (lazy beta iota; exact FAULT).
-      destruct (calc_mem ioff isz) as [x|]; [|(lazy beta iota; exact FAULT)].
-      destruct (calc_mem aoff asz) as [y|]; [|(lazy beta iota; exact FAULT)].
-      destruct (W64 <=? x + y); [(lazy beta iota; exact FAULT)|].
-      destruct (mem_size32 (x + y)) as [ms|]; [|(lazy beta iota; exact FAULT)].
+      destruct (stack_bad row_ETX f); [flt FAULT|].
+      destruct (ro && r_writes row_ETX); [flt FAULT|].
+      destruct (use_gas (cgas row_ETX) f) as [f1|]; [|flt FAULT].
+      destruct (f_stack f1) as [|t0 [|addr [|value [|gl [|tip [|cap [|ioff [|isz [|aoff [|asz st]]]]]]]]]]; try (flt FAULT).
+      destruct (calc_mem ioff isz) as [x|]; [|flt FAULT].
+      destruct (calc_mem aoff asz) as [y|]; [|flt FAULT].
+      destruct (W64 <=? x + y); [flt FAULT|].
+      destruct (mem_size32 (x + y)) as [ms|]; [|flt FAULT].
       set (r := op_etx c self (getb self (w_bal w)) (lenN (w_etxs w)) alok addr value gl tip cap asz).
       specialize (IH (with_stack (resize f1 ms) (opt_list (r_push r) ++ st)) (apply_res r self w) (tr ++ [EvOp 0 r])).
-      destruct (exec cf c depth self rest _ _ _) as [[[h f'] w'] tr'].
+      destruct (exec cf c ro depth self rest _ _ _) as [[[h f'] w'] tr'].
       destruct IH as [tr2 [E1 E2]]. exists (EvOp 0 r :: tr2). split.
       + rewrite E1, <- app_assoc. reflexivity.
       + change (emitted_all (EvOp 0 r :: tr2)) with (opt_list (r_emit r) ++ emitted_all tr2).
@@ -465,12 +491,13 @@ Section ExecProofs.
         apply effect_apply_res with (idx := lenN (w_etxs w)); [reflexivity| |apply op_etx_debit_le].
         intros e He. apply op_etx_emit_shape in He. tauto.
     - (* IConvert *)
-      destruct (stack_bad row_CONVERT f); [(lazy beta iota; exact FAULT)|].
-      destruct (use_gas (cgas row_CONVERT) f) as [f1|]; [|(lazy beta iota; exact FAULT)].
-      destruct (f_stack f1) as [|t0 [|addr [|value [|gl st]]]]; try (lazy beta iota; exact FAULT).
+      destruct (stack_bad row_CONVERT f); [flt FAULT|].
+      destruct (ro && r_writes row_CONVERT); [flt FAULT|].
+      destruct (use_gas (cgas row_CONVERT) f) as [f1|]; [|flt FAULT].
+      destruct (f_stack f1) as [|t0 [|addr [|value [|gl st]]]]; try (flt FAULT).
       set (r := op_convert c self (getb self (w_bal w)) (lenN (w_etxs w)) addr value gl).
       specialize (IH (with_stack f1 (opt_list (r_push r) ++ st)) (apply_res r self w) (tr ++ [EvOp 1 r])).
-      destruct (exec cf c depth self rest _ _ _) as [[[h f'] w'] tr'].
+      destruct (exec cf c ro depth self rest _ _ _) as [[[h f'] w'] tr'].
       destruct IH as [tr2 [E1 E2]]. exists (EvOp 1 r :: tr2). split.
       + rewrite E1, <- app_assoc. reflexivity.
       + change (emitted_all (EvOp 1 r :: tr2)) with (opt_list (r_emit r) ++ emitted_all tr2).
@@ -478,43 +505,103 @@ Section ExecProofs.
         eapply effect_ok_trans; [|exact E2].
         apply effect_apply_res with (idx := lenN (w_etxs w)); [reflexivity| |apply op_convert_debit_le].
         intros e He. apply op_convert_emit_shape in He. tauto.
-    - (* ICall *)
-      destruct (stack_bad row_CALL f); [(lazy beta iota; exact FAULT)|].
-      destruct (use_gas WarmStorageReadCost f) as [f1|]; [|(lazy beta iota; exact FAULT)].
-      destruct (f_stack f1) as [|g [|addr [|value [|ioff [|isz [|roff [|rsz st]]]]]]]; try (lazy beta iota; exact FAULT).
-      destruct (calc_mem roff rsz) as [x|]; [|(lazy beta iota; exact FAULT)].
-      destruct (calc_mem ioff isz) as [y|]; [|(lazy beta iota; exact FAULT)].
-      destruct (mem_size32 (N.max x y)) as [ms|]; [|(lazy beta iota; exact FAULT)].
-      destruct (negb (internal_quai (x_pfx c) (addr mod W160))); [(lazy beta iota; exact FAULT)|].
-      destruct (mem_gas f1 ms) as [[mfee last]|]; [|(lazy beta iota; exact FAULT)].
+    - (* ICallK: CALL, CALLCODE, DELEGATECALL, STATICCALL *)
+      destruct (stack_bad (row_of k) f); [flt FAULT|].
+      destruct (call_args k (f_stack f)) as [[[[[[[[g addr] value] ioff] isz] roff] rsz] st]|]; [|flt FAULT].
+      destruct (ro && is_call k && negb (value =? 0)); [flt FAULT|].
+      destruct (use_gas WarmStorageReadCost f) as [f1|]; [|flt FAULT].
+      destruct (calc_mem roff rsz) as [x|]; [|flt FAULT].
+      destruct (calc_mem ioff isz) as [y|]; [|flt FAULT].
+      destruct (mem_size32 (N.max x y)) as [ms|]; [|flt FAULT].
+      destruct (is_call k && negb (internal_quai (x_pfx c) (addr mod W160))); [flt FAULT|].
+      destruct (mem_gas f1 ms) as [[mfee last]|]; [|flt FAULT].
       match goal with |- context [if f_gas f1 <? ?b then _ else _] => set (base := b) end.
-      destruct (f_gas f1 <? base); [(lazy beta iota; exact FAULT)|].
+      destruct (f_gas f1 <? base); [flt FAULT|].
       match goal with |- context [use_gas (base + ?t) _] => set (temp := t) end.
-      destruct (use_gas (base + temp) (with_mlast f1 last)) as [f2|]; [|(lazy beta iota; exact FAULT)].
-      match goal with |- context [cf depth self ?a ?g0 value w] => set (r := cf depth self a g0 value w) end.
-      pose proof (cf_inv depth self (addr mod W160) (temp + (if negb (value =? 0) then CallStipend else 0)) value w) as [Hrev Heff].
+      destruct (use_gas (base + temp) (with_mlast f1 last)) as [f2|]; [|flt FAULT].
+      match goal with |- context [cf (FK k) ro depth self ?a ?g0 value w] => set (r := cf (FK k) ro depth self a g0 value w) end.
+      pose proof (cf_inv (FK k) ro depth self (addr mod W160) (temp + (if negb (value =? 0) then CallStipend else 0)) value w) as [Hrev Heff].
       fold r in Hrev, Heff.
-      match goal with |- match exec cf c depth self rest ?fa ?wa ?ta with _ => _ end => specialize (IH fa wa ta) end.
-      destruct (exec cf c depth self rest _ _ _) as [[[h f'] w'] tr'].
-      destruct IH as [tr2 [E1 E2]]. exists (EvCall (c_err r =? 0) (c_tr r) :: tr2). split.
+      destruct (c_err r =? 5) eqn:E5.
+      { (* common.ErrExternalAddress: the calling frame faults as well *)
+        lazy beta iota. exists [EvCall false (c_tr r)]. split; [reflexivity|].
+        change (emitted_all [EvCall false (c_tr r)]) with (@nil etx).
+        change (debited_all [EvCall false (c_tr r)]) with (0 + 0). apply effect_ok_refl. }
+      match goal with |- match exec cf c ro depth self rest ?fa ?wa ?ta with _ => _ end => specialize (IH fa wa ta) end.
+      destruct (exec cf c ro depth self rest _ _ _) as [[[h f'] w'] tr'].
+      destruct IH as [tr2 [E1 E2]]. exists (EvCall (kept r) (c_tr r) :: tr2). split.
       + rewrite E1, <- app_assoc. reflexivity.
-      + change (emitted_all (EvCall (c_err r =? 0) (c_tr r) :: tr2))
-          with ((if c_err r =? 0 then emitted_all (c_tr r) else []) ++ emitted_all tr2).
-        change (debited_all (EvCall (c_err r =? 0) (c_tr r) :: tr2))
-          with ((if c_err r =? 0 then debited_all (c_tr r) else 0) + debited_all tr2).
+      + change (emitted_all (EvCall (kept r) (c_tr r) :: tr2))
+          with ((if kept r then emitted_all (c_tr r) else []) ++ emitted_all tr2).
+        change (debited_all (EvCall (kept r) (c_tr r) :: tr2))
+          with ((if kept r then debited_all (c_tr r) else 0) + debited_all tr2).
+        eapply effect_ok_trans; [exact Heff|exact E2].
+    - (* ICreate: CREATE, CREATE2 *)
+      set (row := if two then row_CREATE2 else row_CREATE).
+      destruct (stack_bad row f); [flt FAULT|].
+      destruct (ro && r_writes row); [flt FAULT|].
+      destruct (use_gas (cgas row) f) as [f1|]; [|flt FAULT].
+      destruct (create_args two (f_stack f1)) as [[[[value off] size] st]|]; [|flt FAULT].
+      destruct (calc_mem off size) as [msz|]; [|flt FAULT].
+      destruct (mem_size32 msz) as [ms|]; [|flt FAULT].
+      destruct (mem_gas f1 ms) as [[mfee last]|]; [|flt FAULT].
+      match goal with |- context [use_gas (mfee + ?t) _] => set (wfee := t) end.
+      destruct (use_gas (mfee + wfee) (with_mlast f1 last)) as [f2|]; [|flt FAULT].
+      match goal with |- context [cf (FCreate init naddr grind) ro depth self 0 ?g0 value w] =>
+        set (r := cf (FCreate init naddr grind) ro depth self 0 g0 value w);
+        pose proof (cf_inv (FCreate init naddr grind) ro depth self 0 g0 value w) as [Hrev Heff] end.
+      fold r in Hrev, Heff.
+      match goal with |- match exec cf c ro depth self rest ?fa ?wa ?ta with _ => _ end => specialize (IH fa wa ta) end.
+      destruct (exec cf c ro depth self rest _ _ _) as [[[h f'] w'] tr'].
+      destruct IH as [tr2 [E1 E2]]. exists (EvCall (kept r) (c_tr r) :: tr2). split.
+      + rewrite E1, <- app_assoc. reflexivity.
+      + change (emitted_all (EvCall (kept r) (c_tr r) :: tr2))
+          with ((if kept r then emitted_all (c_tr r) else []) ++ emitted_all tr2).
+        change (debited_all (EvCall (kept r) (c_tr r) :: tr2))
+          with ((if kept r then debited_all (c_tr r) else 0) + debited_all tr2).
         eapply effect_ok_trans; [exact Heff|exact E2].
     - (* IStop *)
       exists []. rewrite app_nil_r. split; [reflexivity|apply effect_ok_refl].
+    - (* IReturn *)
+      destruct (stack_bad row_RETURN f); [flt FAULT|].
+      destruct (f_stack f) as [|off [|sz st]]; try (flt FAULT).
+      destruct (calc_mem off sz) as [msz|]; [|flt FAULT].
+      destruct (mem_size32 msz) as [ms|]; [|flt FAULT].
+      destruct (mem_gas f ms) as [[fee last]|]; [|flt FAULT].
+      destruct (use_gas fee (with_mlast f last)) as [f2|]; [|flt FAULT].
+      exists []. rewrite app_nil_r. split; [reflexivity|apply effect_ok_refl].
     - (* IRevert *)
-      destruct (stack_bad row_REVERT f); [(lazy beta iota; exact FAULT)|].
-      destruct (f_stack f) as [|off [|sz st]]; try (lazy beta iota; exact FAULT).
-      destruct (calc_mem off sz) as [msz|]; [|(lazy beta iota; exact FAULT)].
-      destruct (mem_size32 msz) as [ms|]; [|(lazy beta iota; exact FAULT)].
-      destruct (mem_gas f ms) as [[fee last]|]; [|(lazy beta iota; exact FAULT)].
-      destruct (use_gas fee (with_mlast f last)) as [f2|]; [|(lazy beta iota; exact FAULT)].
+      destruct (stack_bad row_REVERT f); [flt FAULT|].
+      destruct (f_stack f) as [|off [|sz st]]; try (flt FAULT).
+      destruct (calc_mem off sz) as [msz|]; [|flt FAULT].
+      destruct (mem_size32 msz) as [ms|]; [|flt FAULT].
+      destruct (mem_gas f ms) as [[fee last]|]; [|flt FAULT].
+      destruct (use_gas fee (with_mlast f last)) as [f2|]; [|flt FAULT].
       exists []. rewrite app_nil_r. split; [reflexivity|apply effect_ok_refl].
     - (* IInvalid *)
-      (lazy beta iota; exact FAULT).
+      flt FAULT.
+  Qed.
+
+  (* the common tail of every frame kind: run the code, restore the snapshot on any error *)
+  Lemma run_frame_inv : forall deposit code gas w w1,
+    w_etxs w1 = w_etxs w -> sumb (w_bal w1) = sumb (w_bal w) ->
+    res_inv w (run_frame cf c ro depth self deposit code gas w w1).
+  Proof.
+    intros deposit code gas w w1 H1 H2. unfold run_frame.
+    destruct code as [[|i0 code]|]; [apply res_inv_ok0; assumption| |apply res_inv_ok0; assumption].
+    pose proof (exec_effect (i0 :: code) (mkF [] gas 0 0) w1 []) as EX.
+    destruct (exec cf c ro depth self (i0 :: code) (mkF [] gas 0 0) w1 []) as [[[h f] w2] tr].
+    destruct EX as [tr2 [E1 [A [B C]]]]. cbn [app] in E1. subst tr2.
+    assert (K : effect_ok w w2 (emitted_all tr) (debited_all tr)).
+    { unfold effect_ok. rewrite <- H1, <- H2. repeat split; [exact A|rewrite H1 in B; rewrite H1; exact B|lia]. }
+    destruct h as [|n| | |].
+    - apply res_inv_kept; auto.
+    - destruct deposit; [|apply res_inv_kept; auto].
+      destruct (MaxCodeSize <? n); [apply res_inv_err; discriminate|].
+      destruct (f_gas f <? n * CreateDataGas); apply res_inv_kept; auto.
+    - apply res_inv_err; discriminate.
+    - apply res_inv_err; discriminate.
+    - apply res_inv_err; discriminate.
   Qed.
 End ExecProofs.
 
@@ -523,52 +610,195 @@ Proof. intros c w a v H. unfold can_transfer in H. apply andb_true_iff in H. des
 
 Lemma call_inv_all : forall fuel c, call_inv (call fuel c).
 Proof.
-  induction fuel as [|fuel IH]; intros c depth caller addr gas value w; cbn zeta.
-  { cbn [call c_err c_world c_tr]. split; [reflexivity|]. cbn. apply effect_ok_refl. }
+  induction fuel as [|fuel IH]; intros c k ro depth caller addr gas value w.
+  { cbn [call]. apply res_inv_err; discriminate. }
   cbn [call].
-  assert (ERR : forall e g tr, e <> 0 ->
-     (c_err (mkC e g w tr) <> 0 -> c_world (mkC e g w tr) = w) /\
-     effect_ok w (c_world (mkC e g w tr)) (if c_err (mkC e g w tr) =? 0 then emitted_all (c_tr (mkC e g w tr)) else [])
-                (if c_err (mkC e g w tr) =? 0 then debited_all (c_tr (mkC e g w tr)) else 0)).
-  { intros e g tr He. cbn [c_err c_world c_tr]. split; [reflexivity|]. apply N.eqb_neq in He. rewrite He. apply effect_ok_refl. }
-  destruct (CallCreateDepth <? depth); [apply ERR; discriminate|].
-  destruct (negb (value =? 0) && negb (can_transfer c w caller value)) eqn:CT; [apply ERR; discriminate|].
-  assert (VLE : value <= getb caller (w_bal w)).
-  { apply andb_false_iff in CT. destruct CT as [CT|CT].
-    - apply negb_false_iff, N.eqb_eq in CT. lia.
-    - apply negb_false_iff in CT. eapply can_transfer_le; eassumption. }
-  destruct (reserved addr); [apply ERR; discriminate|].
-  destruct (negb (internal_quai (x_pfx c) addr)).
-  { destruct (create_etx c caller (getb caller (w_bal w)) (lenN (w_etxs w)) addr gas value) as [ok r] eqn:CE.
-    destruct ok; [|apply ERR; discriminate].
-    apply create_etx_ok_shape in CE. destruct CE as [D [Dle [_ [e [Em [_ [Ei _]]]]]]].
-    cbn [c_err c_world c_tr N.eqb]. split; [intros H; exfalso; apply H; reflexivity|].
-    change (emitted_all [EvOp 2 r]) with (opt_list (r_emit r) ++ []). rewrite app_nil_r.
-    change (debited_all [EvOp 2 r]) with (r_debit r + 0). rewrite N.add_0_r.
-    apply effect_apply_res with (idx := lenN (w_etxs w)); [reflexivity| |lia].
-    intros e' He'. rewrite Em in He'. inversion He'; subst. exact Ei. }
-  assert (OKW : forall g w1, w_etxs w1 = w_etxs w -> sumb (w_bal w1) = sumb (w_bal w) ->
-     (c_err (mkC 0 g w1 []) <> 0 -> c_world (mkC 0 g w1 []) = w) /\
-     effect_ok w (c_world (mkC 0 g w1 [])) (if c_err (mkC 0 g w1 []) =? 0 then emitted_all (c_tr (mkC 0 g w1 [])) else [])
-                (if c_err (mkC 0 g w1 []) =? 0 then debited_all (c_tr (mkC 0 g w1 [])) else 0)).
-  { intros g w1 H1 H2. cbn [c_err c_world c_tr N.eqb]. split; [intros H; exfalso; apply H; reflexivity|].
-    unfold effect_ok. cbn. rewrite H1, app_nil_r. repeat split; [apply seq_from_nil|lia]. }
-  destruct (negb (exists_acct c w addr)).
-  { destruct (value =? 0); [apply OKW; reflexivity|].
-    destruct (CallNewAccountGas <? gas); [|apply ERR; discriminate].
-    destruct (negb (internal_quai (x_pfx c) caller)); [apply ERR; discriminate|].
-    apply OKW; [reflexivity|]. cbn [w_bal]. apply sumb_transfer. exact VLE. }
-  destruct (negb (internal_quai (x_pfx c) caller)); [apply ERR; discriminate|].
-  set (w1 := mkW (transfer caller addr value (w_bal w)) (w_etxs w)).
-  assert (S1 : sumb (w_bal w1) = sumb (w_bal w)) by (apply sumb_transfer; exact VLE).
-  destruct (code_of addr (x_codes c)) as [[|i0 code]|]; [apply OKW; [reflexivity|exact S1]| |apply OKW; [reflexivity|exact S1]].
-  pose proof (exec_effect (call fuel c) (IH c) c (depth + 1) addr (i0 :: code) (mkF [] gas 0 0) w1 []) as EX.
-  destruct (exec (call fuel c) c (depth + 1) addr (i0 :: code) (mkF [] gas 0 0) w1 []) as [[[h f] w2] tr].
-  destruct EX as [tr2 [E1 [A [B C]]]]. cbn [app] in E1. subst tr2.
-  destruct h; [|apply ERR; discriminate|apply ERR; discriminate].
-  cbn [c_err c_world c_tr N.eqb]. split; [intros H; exfalso; apply H; reflexivity|].
-  unfold effect_ok. repeat split; [exact A|exact B|lia].
+  destruct k as [[ | | | ]|init naddr grind].
+  - (* CALL *)
+    destruct (CallCreateDepth <? depth); [apply res_inv_err; discriminate|].
+    destruct (negb (value =? 0) && negb (can_transfer c w caller value)) eqn:CT; [apply res_inv_err; discriminate|].
+    assert (VLE : value <= getb caller (w_bal w)).
+    { apply andb_false_iff in CT. destruct CT as [CT|CT].
+      - apply negb_false_iff, N.eqb_eq in CT. lia.
+      - apply negb_false_iff in CT. eapply can_transfer_le; eassumption. }
+    destruct (reserved addr); [apply res_inv_err; discriminate|].
+    destruct (negb (internal_quai (x_pfx c) addr)).
+    { destruct (create_etx c caller (getb caller (w_bal w)) (lenN (w_etxs w)) addr gas value) as [ok r] eqn:CE.
+      destruct ok; [|apply res_inv_err; discriminate].
+      apply create_etx_ok_shape in CE. destruct CE as [D [Dle [_ [e [Em [_ [Ei _]]]]]]].
+      apply res_inv_kept; [auto|].
+      change (emitted_all [EvOp 2 r]) with (opt_list (r_emit r) ++ []). rewrite app_nil_r.
+      change (debited_all [EvOp 2 r]) with (r_debit r + 0). rewrite N.add_0_r.
+      apply effect_apply_res with (idx := lenN (w_etxs w)); [reflexivity| |lia].
+      intros e' He'. rewrite Em in He'. inversion He'; subst. exact Ei. }
+    destruct (negb (exists_acct c w addr)).
+    { destruct (value =? 0); [apply res_inv_ok0; reflexivity|].
+      destruct (CallNewAccountGas <? gas); [|apply res_inv_err; discriminate].
+      destruct (negb (internal_quai (x_pfx c) caller)); [apply res_inv_err; discriminate|].
+      apply res_inv_ok0; [reflexivity|]. cbn [w_bal]. apply sumb_transfer. exact VLE. }
+    destruct (negb (internal_quai (x_pfx c) caller)); [apply res_inv_err; discriminate|].
+    apply run_frame_inv; [apply IH|reflexivity|]. cbn [w_bal]. apply sumb_transfer. exact VLE.
+  - (* CALLCODE *)
+    destruct (CallCreateDepth <? depth); [apply res_inv_err; discriminate|].
+    destruct (negb (can_transfer c w caller value)); [apply res_inv_err; discriminate|].
+    destruct (target_err c addr) as [e|] eqn:TE.
+    { unfold target_err in TE.
+      destruct (reserved addr); [inversion TE; apply res_inv_err; discriminate|].
+      destruct (is_qi addr); [inversion TE; apply res_inv_err; discriminate|].
+      destruct (negb (in_scope (x_pfx c) addr)); [inversion TE; apply res_inv_err; discriminate|discriminate]. }
+    apply run_frame_inv; [apply IH|reflexivity|reflexivity].
+  - (* DELEGATECALL *)
+    destruct (CallCreateDepth <? depth); [apply res_inv_err; discriminate|].
+    destruct (target_err c addr) as [e|] eqn:TE.
+    { unfold target_err in TE.
+      destruct (reserved addr); [inversion TE; apply res_inv_err; discriminate|].
+      destruct (is_qi addr); [inversion TE; apply res_inv_err; discriminate|].
+      destruct (negb (in_scope (x_pfx c) addr)); [inversion TE; apply res_inv_err; discriminate|discriminate]. }
+    apply run_frame_inv; [apply IH|reflexivity|reflexivity].
+  - (* STATICCALL *)
+    destruct (CallCreateDepth <? depth); [apply res_inv_err; discriminate|].
+    destruct (target_err c addr) as [e|] eqn:TE.
+    { unfold target_err in TE.
+      destruct (reserved addr); [inversion TE; apply res_inv_err; discriminate|].
+      destruct (is_qi addr); [inversion TE; apply res_inv_err; discriminate|].
+      destruct (negb (in_scope (x_pfx c) addr)); [inversion TE; apply res_inv_err; discriminate|discriminate]. }
+    apply run_frame_inv; [apply IH|reflexivity|reflexivity].
+  - (* CREATE / CREATE2 *)
+    destruct (negb (internal_quai (x_pfx c) caller)); [apply res_inv_err; discriminate|].
+    destruct (gas <? grind); [apply res_inv_err; discriminate|].
+    destruct (CallCreateDepth <? depth); [apply res_inv_err; discriminate|].
+    destruct (negb (CallNewAccountGas <? gas - grind)); [apply res_inv_err; discriminate|].
+    destruct (negb (can_transfer c w caller value)) eqn:CT; [apply res_inv_err; discriminate|].
+    apply negb_false_iff, can_transfer_le in CT.
+    destruct (negb (internal_quai (x_pfx c) naddr)); [apply res_inv_err; discriminate|].
+    apply run_frame_inv; [apply IH|reflexivity|]. cbn [w_bal]. apply sumb_transfer. exact CT.
 Qed.
+
+(* ------------------------------------------------------------------ *)
+(* Read-only frames (STATICCALL and everything below it)               *)
+(* ------------------------------------------------------------------ *)
+
+(* the arguments with which the interpreter can reach a frame function while interpreter.readOnly is set:
+   STATICCALL itself (sets the flag), CALL only with value 0 and an in-zone Quai target (write protection,
+   gasCall), CALLCODE / DELEGATECALL; CREATE / CREATE2 are write-protected *)
+Definition ro_args (c : ctx) (k : fkind) (ro : bool) (addr value : N) : Prop :=
+  match k with
+  | FK CkStatic => True
+  | FK CkCall => ro = true /\ value = 0 /\ internal_quai (x_pfx c) addr = true
+  | FK _ => ro = true
+  | FCreate _ _ _ => False
+  end.
+Definition ro_inv (c : ctx) (cf : fkind -> bool -> N -> N -> N -> N -> N -> world -> cres) : Prop :=
+  forall k ro depth caller addr gas value w, ro_args c k ro addr value -> c_world (cf k ro depth caller addr gas value w) = w.
+
+Lemma transfer_zero : forall a b l, transfer a b 0 l = l.
+Proof. intros. unfold transfer, addb, subb. reflexivity. Qed.
+
+Section ReadOnly.
+  Variable cf : fkind -> bool -> N -> N -> N -> N -> N -> world -> cres.
+  Variable c : ctx.
+  Hypothesis cf_ro : ro_inv c cf.
+  Variable depth self : N.
+
+  Lemma exec_ro_world : forall code f w tr,
+    match exec cf c true depth self code f w tr with (h, f', w', tr') => w' = w end.
+  Proof.
+    induction code as [|i rest IH]; intros f w tr; [reflexivity|].
+    destruct i; cbn [exec]; unfold fault.
+    - destruct (stack_bad row_PUSH32 f); [reflexivity|].
+      destruct (use_gas (cgas row_PUSH32) f) as [f1|]; [|reflexivity]. apply IH.
+    - destruct (stack_bad row_POP f); [reflexivity|].
+      destruct (use_gas (cgas row_POP) f) as [f1|]; [|reflexivity]. apply IH.
+    - destruct (stack_bad row_MSTORE f); [reflexivity|].
+      destruct (use_gas (cgas row_MSTORE) f) as [f1|]; [|reflexivity].
+      destruct (f_stack f1) as [|off [|v st]]; try reflexivity.
+      destruct (if W64 <=? off then None else if W64 <=? off + 32 then None else Some (off + 32)) as [msz|]; [|reflexivity].
+      destruct (mem_size32 msz) as [ms|]; [|reflexivity].
+      destruct (mem_gas f1 ms) as [[fee last]|]; [|reflexivity].
+      destruct (use_gas fee (with_mlast f1 last)) as [f2|]; [|reflexivity]. apply IH.
+    - (* ETX: the jump-table row is marked "writes" *)
+      destruct (stack_bad row_ETX f); [reflexivity|].
+      change (true && r_writes row_ETX) with true. reflexivity.
+    - destruct (stack_bad row_CONVERT f); [reflexivity|].
+      change (true && r_writes row_CONVERT) with true. reflexivity.
+    - (* call opcodes *)
+      destruct (stack_bad (row_of k) f); [reflexivity|].
+      destruct (call_args k (f_stack f)) as [[[[[[[[g addr] value] ioff] isz] roff] rsz] st]|]; [|reflexivity].
+      destruct (true && is_call k && negb (value =? 0)) eqn:WP; [reflexivity|].
+      destruct (use_gas WarmStorageReadCost f) as [f1|]; [|reflexivity].
+      destruct (calc_mem roff rsz) as [x|]; [|reflexivity].
+      destruct (calc_mem ioff isz) as [y|]; [|reflexivity].
+      destruct (mem_size32 (N.max x y)) as [ms|]; [|reflexivity].
+      destruct (is_call k && negb (internal_quai (x_pfx c) (addr mod W160))) eqn:IQ; [reflexivity|].
+      destruct (mem_gas f1 ms) as [[mfee last]|]; [|reflexivity].
+      match goal with |- context [if f_gas f1 <? ?b then _ else _] => set (base := b) end.
+      destruct (f_gas f1 <? base); [reflexivity|].
+      match goal with |- context [use_gas (base + ?t) _] => set (temp := t) end.
+      destruct (use_gas (base + temp) (with_mlast f1 last)) as [f2|]; [|reflexivity].
+      match goal with |- context [cf (FK k) true depth self ?a ?g0 value w] => set (r := cf (FK k) true depth self a g0 value w) end.
+      assert (RW : c_world r = w).
+      { apply cf_ro. destruct k; cbn [ro_args]; auto.
+        cbn [is_call andb] in WP, IQ. apply negb_false_iff in WP, IQ. apply N.eqb_eq in WP. auto. }
+      destruct (c_err r =? 5); [reflexivity|].
+      rewrite RW. apply IH.
+    - (* CREATE / CREATE2 are marked "writes" *)
+      destruct two.
+      + destruct (stack_bad row_CREATE2 f); [reflexivity|]. change (true && r_writes row_CREATE2) with true. reflexivity.
+      + destruct (stack_bad row_CREATE f); [reflexivity|]. change (true && r_writes row_CREATE) with true. reflexivity.
+    - reflexivity.
+    - destruct (stack_bad row_RETURN f); [reflexivity|].
+      destruct (f_stack f) as [|off [|sz st]]; try reflexivity.
+      destruct (calc_mem off sz) as [msz|]; [|reflexivity].
+      destruct (mem_size32 msz) as [ms|]; [|reflexivity].
+      destruct (mem_gas f ms) as [[fee last]|]; [|reflexivity].
+      destruct (use_gas fee (with_mlast f last)) as [f2|]; reflexivity.
+    - destruct (stack_bad row_REVERT f); [reflexivity|].
+      destruct (f_stack f) as [|off [|sz st]]; try reflexivity.
+      destruct (calc_mem off sz) as [msz|]; [|reflexivity].
+      destruct (mem_size32 msz) as [ms|]; [|reflexivity].
+      destruct (mem_gas f ms) as [[fee last]|]; [|reflexivity].
+      destruct (use_gas fee (with_mlast f last)) as [f2|]; reflexivity.
+    - reflexivity.
+  Qed.
+
+  Lemma run_frame_ro_world : forall code gas w,
+    c_world (run_frame cf c true depth self false code gas w w) = w.
+  Proof.
+    intros code gas w. unfold run_frame. destruct code as [[|i0 code]|]; try reflexivity.
+    pose proof (exec_ro_world (i0 :: code) (mkF [] gas 0 0) w []) as EX.
+    destruct (exec cf c true depth self (i0 :: code) (mkF [] gas 0 0) w []) as [[[h f] w2] tr].
+    destruct h; cbn [c_world]; auto.
+  Qed.
+End ReadOnly.
+
+Lemma call_ro_inv : forall fuel c, ro_inv c (call fuel c).
+Proof.
+  induction fuel as [|fuel IH]; intros c k ro depth caller addr gas value w RA; [reflexivity|].
+  cbn [call].
+  assert (TE : forall (x : cres), c_world x = w ->
+            c_world (match target_err c addr with Some e => mkC e 0 w [] | None => x end) = w).
+  { intros x Hx. destruct (target_err c addr); [reflexivity|exact Hx]. }
+  destruct k as [[ | | | ]|init naddr grind]; cbn [ro_args] in RA.
+  - destruct RA as [Hro [Hv Hi]]. subst ro value. rewrite Hi. cbn [negb N.eqb andb].
+    destruct (CallCreateDepth <? depth); [reflexivity|].
+    destruct (reserved addr); [reflexivity|].
+    destruct (negb (exists_acct c w addr)); [reflexivity|].
+    destruct (negb (internal_quai (x_pfx c) caller)); [reflexivity|].
+    rewrite transfer_zero. destruct w as [bal etxs]. cbn [w_bal w_etxs].
+    apply run_frame_ro_world. apply IH.
+  - subst ro. destruct (CallCreateDepth <? depth); [reflexivity|].
+    destruct (negb (can_transfer c w caller value)); [reflexivity|].
+    apply TE. apply run_frame_ro_world. apply IH.
+  - subst ro. destruct (CallCreateDepth <? depth); [reflexivity|].
+    apply TE. apply run_frame_ro_world. apply IH.
+  - destruct (CallCreateDepth <? depth); [reflexivity|].
+    apply TE. apply run_frame_ro_world. apply IH.
+  - contradiction.
+Qed.
+
+Lemma static_call_world : forall fuel c ro depth caller addr gas value w,
+  c_world (call fuel c (FK CkStatic) ro depth caller addr gas value w) = w.
+Proof. intros. apply call_ro_inv. exact I. Qed.
 
 (* ------------------------------------------------------------------ *)
 (* Generated data: the obligations a source edit breaks                *)
@@ -599,6 +829,12 @@ Definition rows_as_modelled : bool :=
   row_eqb row_MSTORE (mkRow 2 (StackLimit + 2) "opMstore" "gasFastestStep" (Some 3%N) "pureMemoryGascost" "memoryMStore" false false false false false) &&
   row_eqb row_STOP (mkRow 0 StackLimit "opStop" "gasZero" (Some 0%N) "" "" true false false false false) &&
   row_eqb row_REVERT (mkRow 2 (StackLimit + 2) "opRevert" "gasZero" (Some 0%N) "pureMemoryGascost" "memoryRevert" false false false true true) &&
+  row_eqb row_CALLCODE (mkRow 7 (StackLimit + 7 - 1) "opCallCode" "gasWarmStorageRead" None "makeCallVariantGasCall" "memoryCall" false false false false true) &&
+  row_eqb row_DELEGATECALL (mkRow 6 (StackLimit + 6 - 1) "opDelegateCall" "gasWarmStorageRead" None "makeCallVariantGasCall" "memoryDelegateCall" false false false false true) &&
+  row_eqb row_STATICCALL (mkRow 6 (StackLimit + 6 - 1) "opStaticCall" "gasWarmStorageRead" None "makeCallVariantGasCall" "memoryStaticCall" false false false false true) &&
+  row_eqb row_CREATE (mkRow 3 (StackLimit + 3 - 1) "opCreate" "gasCreateConstant" (Some 32000%N) "pureMemoryGascost" "memoryCreate" false false true false true) &&
+  row_eqb row_CREATE2 (mkRow 4 (StackLimit + 4 - 1) "opCreate2" "gasCreate2Constant" (Some 32000%N) "gasCreate2" "memoryCreate2" false false true false true) &&
+  row_eqb row_RETURN (mkRow 2 (StackLimit + 2) "opReturn" "gasZero" (Some 0%N) "pureMemoryGascost" "memoryReturn" true false false false false) &&
   negb opcode_0xfe_defined.
 
 (* the order of the relevant calls in the Go source of the mirrored functions *)
@@ -622,7 +858,24 @@ Definition sources_as_modelled : bool :=
   strs_eqb src_opCall ["pop"; "pop"; "pop"; "pop"; "pop"; "pop"; "pop"; "Clear"; "SetOne"; "push"] &&
   strs_eqb src_gasCall ["InternalAndQuaiAddress"] &&
   strs_eqb src_UnwrapQi ["InternalAndQuaiAddress"; "InternalAndQiAddress"; "InternalAndQuaiAddress"; "GetState"; "SetState";
-                         "lenETXCache"; "appendETXCache"; "NewTx"].
+                         "lenETXCache"; "appendETXCache"; "NewTx"] &&
+  (* every frame kind takes the EVM snapshot (state revision AND length of the ETX cache) before it runs code
+     and restores it on any error: [run_frame] *)
+  strs_eqb src_snapshot ["Snapshot"; "lenETXCache"; "copyCoinbasesDeleted"] &&
+  strs_eqb src_revertToSnapshot ["RevertToSnapshot"; "sliceETXCache"; "copyCoinbasesDeleted"] &&
+  strs_eqb src_CallCode ["CanTransfer"; "snapshot"; "precompile"; "RunPrecompiledContract"; "InternalAndQuaiAddress"; "Run"; "revertToSnapshot"] &&
+  strs_eqb src_DelegateCall ["snapshot"; "precompile"; "RunPrecompiledContract"; "InternalAndQuaiAddress"; "Run"; "revertToSnapshot"] &&
+  strs_eqb src_StaticCall ["snapshot"; "precompile"; "RunPrecompiledContract"; "InternalAndQuaiAddress"; "Run"; "revertToSnapshot"] &&
+  strs_eqb src_Create ["InternalAndQuaiAddress"; "CreateAddress"; "InternalAndQuaiAddress"; "create"; "attemptGrindContractCreation"; "create"] &&
+  strs_eqb src_Create2 ["CreateAddress2"; "create"] &&
+  strs_eqb src_create ["InternalAndQuaiAddress"; "CanTransfer"; "InternalAndQuaiAddress"; "snapshot"; "CreateAccount"; "Transfer"; "Run";
+                       "UseGas"; "SetCode"; "revertToSnapshot"; "UseGas"] &&
+  strs_eqb src_opCallCode ["pop"; "pop"; "pop"; "pop"; "pop"; "pop"; "pop"; "CallCode"; "Clear"; "SetOne"; "push"] &&
+  strs_eqb src_opDelegateCall ["pop"; "pop"; "pop"; "pop"; "pop"; "pop"; "DelegateCall"; "Clear"; "SetOne"; "push"] &&
+  strs_eqb src_opStaticCall ["pop"; "pop"; "pop"; "pop"; "pop"; "pop"; "StaticCall"; "Clear"; "SetOne"; "push"] &&
+  strs_eqb src_opCreate ["pop"; "pop"; "pop"; "UseGas"; "Create"; "Clear"; "push"] &&
+  strs_eqb src_opCreate2 ["pop"; "pop"; "pop"; "pop"; "UseGas"; "Create2"; "Clear"; "push"] &&
+  strs_eqb src_gasCallCode [] && strs_eqb src_gasDelegateCall [] && strs_eqb src_gasStaticCall [].
 Local Close Scope string_scope.
 
 (* fork heights: the regimes the theorems distinguish all exist and are ordered as the model assumes *)
@@ -643,44 +896,87 @@ Lemma forks_ok : forks_as_modelled = true. Proof. vm_compute. reflexivity. Qed.
 (* Statements about EVM.Call                                           *)
 (* ------------------------------------------------------------------ *)
 
-Lemma call_failed_no_trace : forall fuel c depth caller addr gas value w,
-  c_err (call fuel c depth caller addr gas value w) <> 0 ->
-  c_world (call fuel c depth caller addr gas value w) = w.
-Proof. intros fuel c depth caller addr gas value w. apply (call_inv_all fuel c depth caller addr gas value w). Qed.
+(* every error but the constructors' ErrCodeStoreOutOfGas restores the world *)
+Lemma call_failed_no_trace_partial : forall fuel c k ro depth caller addr gas value w,
+  c_err (call fuel c k ro depth caller addr gas value w) <> 0 ->
+  c_err (call fuel c k ro depth caller addr gas value w) <> 6 ->
+  c_world (call fuel c k ro depth caller addr gas value w) = w.
+Proof.
+  intros fuel c k ro depth caller addr gas value w H0 H6.
+  apply (call_inv_all fuel c k ro depth caller addr gas value w).
+  unfold kept. apply N.eqb_neq in H0, H6. rewrite H0, H6. reflexivity.
+Qed.
 
-Lemma call_outbound : forall fuel c depth caller addr gas value w,
-  let r := call fuel c depth caller addr gas value w in
-  w_etxs (c_world r) = w_etxs w ++ (if c_err r =? 0 then emitted_all (c_tr r) else []).
-Proof. intros fuel c depth caller addr gas value w. apply (call_inv_all fuel c depth caller addr gas value w). Qed.
+(* message calls never end with ErrCodeStoreOutOfGas *)
+Lemma run_frame_not_6 : forall cf c ro depth self code gas w w1,
+  c_err (run_frame cf c ro depth self false code gas w w1) <> 6.
+Proof.
+  intros. unfold run_frame. destruct code as [[|i0 code]|]; try discriminate.
+  destruct (exec cf c ro depth self (i0 :: code) (mkF [] gas 0 0) w1 []) as [[[h f] w2] tr].
+  destruct h; discriminate.
+Qed.
+Lemma call_fk_not_6 : forall fuel c k ro depth caller addr gas value w,
+  c_err (call fuel c (FK k) ro depth caller addr gas value w) <> 6.
+Proof.
+  intros fuel c k ro depth caller addr gas value w. destruct fuel as [|fuel]; [discriminate|]. cbn [call].
+  assert (TE : forall x : cres, c_err x <> 6 ->
+            c_err (match target_err c addr with Some e => mkC e 0 w [] | None => x end) <> 6).
+  { intros x Hx. unfold target_err. destruct (reserved addr); [discriminate|]. destruct (is_qi addr); [discriminate|].
+    destruct (negb (in_scope (x_pfx c) addr)); [discriminate|exact Hx]. }
+  destruct k.
+  - destruct (CallCreateDepth <? depth); [discriminate|].
+    destruct (negb (value =? 0) && negb (can_transfer c w caller value)); [discriminate|].
+    destruct (reserved addr); [discriminate|].
+    destruct (negb (internal_quai (x_pfx c) addr)).
+    { destruct (create_etx c caller (getb caller (w_bal w)) (lenN (w_etxs w)) addr gas value) as [ok r]. destruct ok; discriminate. }
+    destruct (negb (exists_acct c w addr)).
+    { destruct (value =? 0); [discriminate|]. destruct (CallNewAccountGas <? gas); [|discriminate].
+      destruct (negb (internal_quai (x_pfx c) caller)); discriminate. }
+    destruct (negb (internal_quai (x_pfx c) caller)); [discriminate|]. apply run_frame_not_6.
+  - destruct (CallCreateDepth <? depth); [discriminate|].
+    destruct (negb (can_transfer c w caller value)); [discriminate|]. apply TE, run_frame_not_6.
+  - destruct (CallCreateDepth <? depth); [discriminate|]. apply TE, run_frame_not_6.
+  - destruct (CallCreateDepth <? depth); [discriminate|]. apply TE, run_frame_not_6.
+Qed.
+
+Lemma call_failed_no_trace : forall fuel c k ro depth caller addr gas value w,
+  c_err (call fuel c (FK k) ro depth caller addr gas value w) <> 0 ->
+  c_world (call fuel c (FK k) ro depth caller addr gas value w) = w.
+Proof. intros. apply call_failed_no_trace_partial; [assumption|apply call_fk_not_6]. Qed.
+
+Lemma call_outbound : forall fuel c k ro depth caller addr gas value w,
+  let r := call fuel c k ro depth caller addr gas value w in
+  w_etxs (c_world r) = w_etxs w ++ (if kept r then emitted_all (c_tr r) else []).
+Proof. intros fuel c k ro depth caller addr gas value w. apply (call_inv_all fuel c k ro depth caller addr gas value w). Qed.
 
 Definition indices_ok (l : list etx) : Prop := forall j e, nth_error l j = Some e -> e_index e = N.of_nat j.
 
-Lemma call_indices : forall fuel c depth caller addr gas value w,
-  indices_ok (w_etxs w) -> indices_ok (w_etxs (c_world (call fuel c depth caller addr gas value w))).
+Lemma call_indices : forall fuel c k ro depth caller addr gas value w,
+  indices_ok (w_etxs w) -> indices_ok (w_etxs (c_world (call fuel c k ro depth caller addr gas value w))).
 Proof.
-  intros fuel c depth caller addr gas value w H.
-  destruct (call_inv_all fuel c depth caller addr gas value w) as [_ [A [B _]]].
+  intros fuel c k ro depth caller addr gas value w H.
+  destruct (call_inv_all fuel c k ro depth caller addr gas value w) as [_ [A [B _]]].
   rewrite A. intros j e Hj. destruct (Nat.lt_ge_cases j (List.length (w_etxs w))) as [L|L].
   - rewrite nth_error_app1 in Hj by assumption. auto.
   - rewrite nth_error_app2 in Hj by assumption. apply B in Hj. rewrite Hj, lenN_spec. lia.
 Qed.
 
-Lemma call_conservation : forall fuel c depth caller addr gas value w,
-  let r := call fuel c depth caller addr gas value w in
-  sumb (w_bal (c_world r)) + (if c_err r =? 0 then debited_all (c_tr r) else 0) = sumb (w_bal w).
-Proof. intros fuel c depth caller addr gas value w. apply (call_inv_all fuel c depth caller addr gas value w). Qed.
+Lemma call_conservation : forall fuel c k ro depth caller addr gas value w,
+  let r := call fuel c k ro depth caller addr gas value w in
+  sumb (w_bal (c_world r)) + (if kept r then debited_all (c_tr r) else 0) = sumb (w_bal w).
+Proof. intros fuel c k ro depth caller addr gas value w. apply (call_inv_all fuel c k ro depth caller addr gas value w). Qed.
 
 (* a plain call to an address that is not an in-zone Quai address = EVM.CreateETX under Call's snapshot *)
-Lemma create_etx_call_aon : forall fuel c depth caller addr gas value w,
+Lemma create_etx_call_aon : forall fuel c ro depth caller addr gas value w,
   internal_quai (x_pfx c) addr = false ->
-  let r := call (S fuel) c depth caller addr gas value w in
+  let r := call (S fuel) c (FK CkCall) ro depth caller addr gas value w in
   (c_err r = 0 /\ c_gas r = 0 /\ value <= getb caller (w_bal w) /\
    w_bal (c_world r) = subb caller value (w_bal w) /\
    exists e, w_etxs (c_world r) = w_etxs w ++ [e] /\ e_value e = value /\ e_index e = lenN (w_etxs w) /\
              e_gas e = gas - ETXGas /\ e_to e = addr /\ e_sender e = caller)
   \/ (c_err r <> 0 /\ c_world r = w).
 Proof.
-  intros fuel c depth caller addr gas value w Hi. cbn zeta. cbn [call].
+  intros fuel c ro depth caller addr gas value w Hi. cbn zeta. cbn [call].
   destruct (CallCreateDepth <? depth); [right; cbn; split; [discriminate|reflexivity]|].
   destruct (negb (value =? 0) && negb (can_transfer c w caller value)); [right; cbn; split; [discriminate|reflexivity]|].
   destruct (reserved addr); [right; cbn; split; [discriminate|reflexivity]|].
@@ -767,21 +1063,45 @@ Definition wit_prog_inelig (pad : bool) : list instr :=
 Definition wit_world : world := mkW [(wit_origin, e21); (wit_self, e21)] [].
 
 Lemma tx_loss_witness :
-  let r := call 5 (wit_ctx wit_post 2 [(wit_self, wit_prog_bad_al)]) 0 wit_origin wit_self 10000000 0 wit_world in
+  let r := call 5 (wit_ctx wit_post 2 [(wit_self, wit_prog_bad_al)]) (FK CkCall) false 0 wit_origin wit_self 10000000 0 wit_world in
   c_err r = 0 /\ w_etxs (c_world r) = [] /\ sumb (w_bal (c_world r)) + 75345 = sumb (w_bal wit_world).
 Proof. vm_compute. auto. Qed.
 Lemma tx_loss_witness_no_status :
-  let r := call 5 (wit_ctx wit_post 0 [(wit_self, wit_prog_inelig true)]) 0 wit_origin wit_self 10000000 0 wit_world in
+  let r := call 5 (wit_ctx wit_post 0 [(wit_self, wit_prog_inelig true)]) (FK CkCall) false 0 wit_origin wit_self 10000000 0 wit_world in
   c_err r = 0 /\ w_etxs (c_world r) = [] /\ sumb (w_bal (c_world r)) + 75345 = sumb (w_bal wit_world).
 Proof. vm_compute. auto. Qed.
 
 Lemma tx_aon_refuted :
   exists fuel c caller addr gas value w,
-    let r := call fuel c 0 caller addr gas value w in
+    let r := call fuel c (FK CkCall) false 0 caller addr gas value w in
     c_err r = 0 /\ emitted_all (c_tr r) = [] /\ sumb (w_bal (c_world r)) < sumb (w_bal w).
 Proof.
   exists 5%nat, (wit_ctx wit_post 2 [(wit_self, wit_prog_bad_al)]), wit_origin, wit_self, 10000000, 0, wit_world.
   vm_compute. auto.
+Qed.
+
+(* a constructor that sends and then returns code it cannot pay for: CREATE reports failure (err class 6 =
+   ErrCodeStoreOutOfGas, status word 0) but create() does not restore its snapshot: the endowment stays in the
+   code-less new account, the send's debit and ETX stay (evm.go:create "err != nil && err != ErrCodeStoreOutOfGas") *)
+Definition wit_new : N := 0x0009c9c9c9c9c9c9c9c9c9c9c9c9c9c9c9c9c9c9.
+Definition wit_send : list instr :=
+  [IPush 0; IPush 0; IPush 0; IPush 0; IPush 2; IPush 1; IPush 21000; IPush 12345; IPush wit_to; IPush 0; IEtx false; IPop].
+Definition wit_ctor_big_code : list instr := wit_send ++ [IPush 20000; IPush 0; IReturn].
+
+Lemma ctor_code_store_witness :
+  let r := call 5 (wit_ctx wit_post 2 []) (FCreate wit_ctor_big_code wit_new 0) false 0 wit_self 0 2000000 1000000 wit_world in
+  c_err r = 6 /\
+  w_etxs (c_world r) = [mkEtx wit_to wit_new 12345 0 EtxDefaultType 21000] /\
+  getb wit_new (w_bal (c_world r)) = 1000000 - 75345 /\ getb wit_self (w_bal (c_world r)) = e21 - 1000000.
+Proof. vm_compute. repeat split; reflexivity. Qed.
+
+Lemma failed_frame_no_trace_refuted :
+  exists fuel c k ro depth caller addr gas value w,
+    c_err (call fuel c k ro depth caller addr gas value w) <> 0 /\
+    c_world (call fuel c k ro depth caller addr gas value w) <> w.
+Proof.
+  exists 5%nat, (wit_ctx wit_post 2 []), (FCreate wit_ctor_big_code wit_new 0), false, 0, wit_self, 0, 2000000, 1000000, wit_world.
+  vm_compute. split; intros H; discriminate H.
 Qed.
 
 Lemma post_fork_no_wrap_etx : forall c value gl tip cap, post_fork c = true -> etx_amount_wraps c value gl tip cap = false.
